@@ -144,14 +144,30 @@ def relVerdict (rho steps goAll : String) : String :=
     ((toks t).map fun c => match table.find? (·.1 == c) with | some (_, d) => d | none => c).flatten
   let gs := (goAll.splitOn ";").map parseObs
   let _ := steps
-  match gs with
-  | [_, .ed t1 _ s1 _, .int c1, .int l1, _, .ed t2 _ s2 _, .int c2, .int l2] =>
-    if applyRho t1 != t2 then s!"fail:C03 op(rho(text)) differs from rho(op(text)); rho(op(text)) = {showText (applyRho t1)}"
-    else if c1 != c2 then "fail:C03 CharCount not invariant under cluster substitution"
-    else if l1 != l2 then "fail:C03 LineCount not invariant under cluster substitution"
-    else if s1 != s2 then "fail:C03 sub-editor status differs"
-    else "ok"
-  | _ => if (goAll.splitOn "X~").length > 1 then "fail:C18 operation failed" else "skip:shape"
+  -- two programs of equal length, the second on the substituted text: [edit, op …, charcount, linecount] twice.
+  -- Every pair of corresponding observations must be related by ρ (the first pair, the two `edit`s,
+  -- is related by construction).
+  if gs.length % 2 != 0 ∨ gs.length < 8 then
+    (if (goAll.splitOn "X~").length > 1 then "fail:C18 operation failed" else "skip:shape")
+  else
+    let n := gs.length / 2
+    let pairs := (gs.take n).zip (gs.drop n)
+    let rec go (k : Nat) : List (Obs × Obs) → String
+      | [] => "ok"
+      | (.ed t1 _ s1 _, .ed t2 _ s2 _) :: rest =>
+        if applyRho t1 != t2 then s!"fail:C03 op(rho(text)) differs from rho(op(text)) at step {k}; rho(op(text)) = {showText (applyRho t1)}"
+        else if s1 != s2 then "fail:C03 sub-editor status differs"
+        else go (k + 1) rest
+      | (.str t1, .str t2) :: rest =>
+        if applyRho t1 != t2 then s!"fail:C03 String() of op(rho(text)) differs from rho(String() of op(text)) at step {k}; expected {showText (applyRho t1)}"
+        else go (k + 1) rest
+      | (.int c1, .int c2) :: rest =>
+        if c1 != c2 then (if rest.length == 1 then "fail:C03 CharCount not invariant under cluster substitution"
+                          else "fail:C03 LineCount not invariant under cluster substitution")
+        else go (k + 1) rest
+      | (.err _, _) :: _ | (_, .err _) :: _ => "fail:C18 operation failed"
+      | _ :: _ => "skip:shape"
+    go 0 pairs
 
 def withDefaultsVerdict (go : String) : String :=
   match go.splitOn ";" with
